@@ -1,0 +1,34 @@
+//go:build verif
+
+package srt
+
+// Machine-checked contracts for /verif (govc). Comment-only: compiled only with -tags verif, adds no code.
+
+// C34: an SRT stream id yields exactly its action, path, credentials and query.
+// Custom syntax  action:path[:query] | action:path:user:pass[:query]  (parts = the text split at ':', the last
+// part without a trailing "#feedbackplay"); standard syntax  #!::k=v,...  (the last value given for a key wins).
+
+//@ func (s *streamID) unmarshal
+//@   property C34
+//@   def std() bool = hasPrefix(raw, "#!::")
+//@   def n() int = splitCount(raw, ":")
+//@   def part(k int) string = ite(k == n()-1, trimSuffix(splitPart(raw, ":", k), "#feedbackplay"), splitPart(raw, ":", k))
+//@   def kv(k int) string = splitPart(raw[4:], ",", k)
+//@   def key(k int) string = splitNPart(kv(k), "=", 2, 0)
+//@   def val(k int) string = splitNPart(kv(k), "=", 2, 1)
+//@   def okUpTo(k int) bool = rec true ; okUpTo(k) && splitNCount(kv(k), "=", 2) == 2 && (key(k) == "m" ==> val(k) == "request" || val(k) == "publish")
+//@   lemma okMono(a int, b int) induction b from a: a >= 0 && okUpTo(b) ==> okUpTo(a)
+//@   def lastUser(k int) string = rec old(s.user) ; ite(key(k) == "u", val(k), lastUser(k))
+//@   def lastPass(k int) string = rec old(s.pass) ; ite(key(k) == "s", val(k), lastPass(k))
+//@   def lastPath(k int) string = rec old(s.path) ; ite(key(k) == "r", val(k), lastPath(k))
+//@   def lastMode(k int) streamIDMode = rec old(s.mode) ; ite(key(k) == "m", ite(val(k) == "request", streamIDModeRead, streamIDModePublish), lastMode(k))
+//@   loop 1 invariant 0 <= _i && _i <= splitCount(raw[4:], ",") && okUpTo(_i)
+//@   loop 1 invariant s.user == lastUser(_i) && s.pass == lastPass(_i) && s.path == lastPath(_i) && s.mode == lastMode(_i) && s.query == old(s.query)
+//@   ensures [custom-accepted-iff-well-formed] !std() ==> (result == nil) == (n() >= 2 && n() <= 5 && (part(0) == "read" || part(0) == "publish"))
+//@   ensures [custom-action] !std() && result == nil ==> s.mode == ite(part(0) == "read", streamIDModeRead, streamIDModePublish)
+//@   ensures [custom-path] !std() && result == nil ==> s.path == part(1)
+//@   ensures [custom-credentials] !std() && result == nil && (n() == 4 || n() == 5) ==> s.user == part(2) && s.pass == part(3)
+//@   ensures [custom-no-credentials] !std() && result == nil && n() != 4 && n() != 5 ==> s.user == old(s.user) && s.pass == old(s.pass)
+//@   ensures [custom-query] !std() && result == nil ==> s.query == ite(n() == 3, part(2), ite(n() == 5, part(4), old(s.query)))
+//@   ensures [standard-accepted-iff-well-formed] std() ==> (result == nil) == okUpTo(splitCount(raw[4:], ","))
+//@   ensures [standard-fields] std() && result == nil ==> s.user == lastUser(splitCount(raw[4:], ",")) && s.pass == lastPass(splitCount(raw[4:], ",")) && s.path == lastPath(splitCount(raw[4:], ",")) && s.mode == lastMode(splitCount(raw[4:], ","))
